@@ -195,6 +195,7 @@ class Machine:
         self.steps = 0
         self.lets: list[dict] = []
         self.writer: dict[str, str] = {}     # local name -> scope that wrote it last (diagnosis)
+        self.callee_writes: dict[str, str] = {}   # raw local name -> first callee scope that wrote it
         self.readers: list = []
 
     # ------------------------------------------------------------ stage 1: C body -> IL term
@@ -438,6 +439,8 @@ class Machine:
             n = self.lname(a[0][1])
             self.locals[n] = self.ev(a[1])
             self.writer[n] = self.scope
+            if self.scope and a[0][1] not in self.callee_writes:
+                self.callee_writes[a[0][1]] = self.scope
             return
         if f == "SEQN":
             n = self.cnum(a[0])
@@ -517,5 +520,5 @@ def run_body(body_text, subs, state: State, scoped: bool):
     eff = m.build(decls, ret, {})
     m.ex(eff)
     top = {k: v for k, v in m.locals.items() if ":" not in k}
-    return {"written": dict(m.written), "mem": dict(m.memw), "locals": top, "calls": m.calls, "writer": dict(m.writer),
+    return {"written": dict(m.written), "mem": dict(m.memw), "locals": top, "calls": m.calls, "writer": dict(m.writer), "callee_writes": dict(m.callee_writes),
             "all_locals": dict(m.locals)}
